@@ -33,6 +33,7 @@ type HOp struct {
 	Ek   string      `json:"ek,omitempty"`  // error kind: status wrapped plain ctxcancel ctxdl okerr
 	Det  int         `json:"det,omitempty"` // number of Any details
 	N    int         `json:"n,omitempty"`
+	Via  string      `json:"via,omitempty"` // stream handlers: "ctx" = through grpc.SetHeader / SendHeader / SetTrailer(ctx, ...) instead of the stream's methods
 }
 
 // hqueue is the per-call command queue of a handler.
@@ -516,7 +517,12 @@ func (w *world) runStream(kind string, ss grpc.ServerStream) error {
 				}
 			}
 		case "sethdr":
-			err := ss.SetHeader(w.sharedMD(op.Md))
+			var err error
+			if op.Via == "ctx" {
+				err = grpc.SetHeader(ctx, w.sharedMD(op.Md))
+			} else {
+				err = ss.SetHeader(w.sharedMD(op.Md))
+			}
 			he := base("HSetHdr")
 			he.Md, he.Res = mdCanon(mdOf(op.Md)), errRes(err)
 			tr.emit(he)
@@ -524,12 +530,27 @@ func (w *world) runStream(kind string, ss grpc.ServerStream) error {
 			he := base("HSendHdr")
 			he.Md = mdCanon(mdOf(op.Md))
 			tr.emit(he)
-			err := ss.SendHeader(w.sharedMD(op.Md))
+			var err error
+			if op.Via == "ctx" {
+				err = grpc.SendHeader(ctx, w.sharedMD(op.Md))
+			} else {
+				err = ss.SendHeader(w.sharedMD(op.Md))
+			}
 			hr := base("HSendHdrRet")
 			hr.Res = errRes(err)
 			tr.emit(hr)
+		case "sendbad":
+			// a message the codec refuses: SendMsg fails, nothing is written for it, the stream goes on
+			err := ss.SendMsg("not a protobuf message")
+			he := base("HSendBad")
+			he.Res = errRes(err)
+			tr.emit(he)
 		case "settrl":
-			ss.SetTrailer(w.sharedMD(op.Md))
+			if op.Via == "ctx" {
+				grpc.SetTrailer(ctx, w.sharedMD(op.Md))
+			} else {
+				ss.SetTrailer(w.sharedMD(op.Md))
+			}
 			he := base("HSetTrl")
 			he.Md, he.Res = mdCanon(mdOf(op.Md)), "ok"
 			tr.emit(he)
